@@ -55,6 +55,25 @@ PROPS = {
                      "single-byte corruption position after the file header, zero/0xFF/random tails, every index damage; real Segment.Check/"
                      "Recover vs Seg.check/Seg.recover of the Lean byte-level model on the same bytes; a case is one damaged segment, distinct "
                      "by its bytes, non-trivial when it is not the undamaged segment"),
+    'C08': dict(quick=dict(profiles=[prof('sched', 160, 10), prof('free', 48, 120, race=True)]),
+                thorough=dict(profiles=[prof('sched', 3200, 16), prof('free', 960, 250, race=True)]),
+                rule="(a) deterministic windows: one call (Publish, Delete, Consume, GC) is held at one of its verif pause points (after the rollover swap; "
+                     "between the file writes and the index append; after a delete chose its segment / rewrote it / before it swaps; between a reader's "
+                     "index lookup and its record read; between a GC's index unload and its file unload) while one or two other calls of any kind run, "
+                     "to completion or until they block on a lock the held call owns; every call carries invocation/response times of one logical clock; "
+                     "the driver enumerates the sequential orders consistent with those times and accepts when, for one of them, the sequential model "
+                     "returns exactly the results (Stat excepted) and ends with exactly the directory listing observed; a full scan follows every "
+                     "window; (b) free-running: 1-3 publishers (records of 1.5-4.5 KB that straddle pages among small ones), 1-3 cursor consumers, "
+                     "getters, 1-2 deleters aiming at the tail and at old offsets, NextOffset/Sync/GC/Stat, on logs with rollover 512-9000 bytes, built "
+                     "with the race detector; the recorded history is judged without a sequential witness: disjoint consecutive publish ranges in "
+                     "real-time order; every returned message is the published one; a gap in a Consume answer is a Delete that reported it and was "
+                     "invoked before the answer; no stale 'caught up'; no error a sequential run could not give; no offset reported deleted twice; "
+                     "a Delete whose lowest offset was live throughout deletes it; NextOffset/Sync within the acknowledged/invoked bounds; final "
+                     "scan = published - reported; final Check passes; plus the race detector's verdict; a case is one window / one history, "
+                     "non-trivial when the held call reached its window and another call ran inside it / when a delete and a rollover happened",
+                assumptions=["the Go race detector sees the races of the schedules that ran (it is not exhaustive)",
+                             "pause points mark the windows the property names; windows inside the kernel (page-wise visibility of one write) are only reached by the free-running part",
+                             "Stat is excepted from linearizability, as the property states"]),
     'C09': dict(quick=dict(profiles=[seq('C09', 96, 30)]), thorough=dict(profiles=[seq('C09', 2400, 60)])),
     'C10': dict(quick=dict(profiles=[seq('C10', 128, 30)]), thorough=dict(profiles=[seq('C10', 2400, 60)])),
     'C11': dict(quick=dict(profiles=[seq('C11', 96, 30)]), thorough=dict(profiles=[seq('C11', 1600, 60)])),
